@@ -1,13 +1,13 @@
 package main
 
 import (
-	"regexp"
 	"fmt"
 	"go/ast"
 	"go/constant"
 	"go/parser"
 	"go/token"
 	"go/types"
+	"regexp"
 	"strconv"
 	"strings"
 
@@ -20,15 +20,15 @@ import (
 // ---------------------------------------------------------------------------
 
 type SpecEnv struct {
-	x     *Exec
-	s     *State            // state in which loads are evaluated
-	old   *SpecEnv          // environment for old(...)
-	vars  map[string]*Val   // identifiers
-	bound map[string]string // quantifier-bound variables
-	pkg   *types.Package
-	where string
-	err   error
-	lets  [][2]string
+	x      *Exec
+	s      *State            // state in which loads are evaluated
+	old    *SpecEnv          // environment for old(...)
+	vars   map[string]*Val   // identifiers
+	bound  map[string]string // quantifier-bound variables
+	pkg    *types.Package
+	where  string
+	err    error
+	lets   [][2]string
 	boundB map[string]bool
 }
 
@@ -860,6 +860,9 @@ func (x *Exec) evalPure1(s *State, fn *ssa.Function, args []*Val) *Val {
 	nobl := len(x.obligs)
 	saveCon := x.con
 	x.con = nil // no obligations inside specification evaluation
+	savePr := x.pruner
+	x.pruner = nil // branches of a pure callee are merged into one term anyway
+	defer func() { x.pruner = savePr }()
 	resT := fn.Signature.Results()
 	var rt types.Type
 	if resT.Len() == 1 {
